@@ -1,6 +1,6 @@
 (** * C02Proofs: convergence of the rollout on the per-class abstraction; silence at the fixpoint. *)
 From Coq Require Import List ZArith NArith Bool Lia.
-From EDS Require Import Model.Objects Model.Fitness Model.PodSpec Model.Limits Model.Rolling Model.Abstract
+From EDS Require Import Model.Base Model.Objects Model.Fitness Model.PodSpec Model.Limits Model.Rolling Model.Abstract
      Proofs.Lists Proofs.RollingProofs.
 Import ListNotations.
 Open Scope Z_scope.
@@ -91,4 +91,86 @@ Proof.
     destruct obs as [|x r]; [reflexivity|]. cbn in Hs. discriminate.
   - intros obs Ha. unfold admissible_deletes in Ha. cbn in Ha. rewrite !andb_true_iff in Ha. destruct Ha as [[[_ Hs] _] _].
     destruct obs as [|x r]; [reflexivity|]. cbn in Hs. discriminate.
+Qed.
+
+(** ** projection of the real plan onto the abstraction *)
+Lemma class_partition : forall rs now items,
+  let c f := count_if (is_class f rs now) items in
+  c c_nopod + c c_unresp + c c_ready + c c_up_notready + c c_oldavail + c c_oldunavail + c c_oldterm = zlen items.
+Proof.
+  intros rs now items. cbv beta zeta. induction items as [|i r IH]; [reflexivity|].
+  rewrite !count_if_cons. unfold zlen in *. cbn [length]. rewrite Nat2Z.inj_succ.
+  assert (E : forall f, is_class f rs now i = f (classify rs now i)) by reflexivity. rewrite !E.
+  destruct (classify rs now i) as [| |[|]| | |];
+    cbn [c_nopod c_unresp c_ready c_up_notready c_oldavail c_oldunavail c_oldterm c_haspod c_uptodate]; lia.
+Qed.
+Lemma haspod_split : forall rs now items,
+  let c f := count_if (is_class f rs now) items in
+  c c_haspod = c c_ready + c c_up_notready + c c_oldavail + c c_oldunavail + c c_oldterm.
+Proof.
+  intros rs now items. cbv beta zeta. induction items as [|i r IH]; [reflexivity|].
+  rewrite !count_if_cons.
+  assert (E : forall f, is_class f rs now i = f (classify rs now i)) by reflexivity. rewrite !E.
+  destruct (classify rs now i) as [| |[|]| | |];
+    cbn [c_nopod c_unresp c_ready c_up_notready c_oldavail c_oldunavail c_oldterm c_haspod c_uptodate]; lia.
+Qed.
+Lemma uptodate_split : forall rs now items,
+  let c f := count_if (is_class f rs now) items in
+  c c_uptodate = c c_ready + c c_up_notready.
+Proof.
+  intros rs now items. cbv beta zeta. induction items as [|i r IH]; [reflexivity|].
+  rewrite !count_if_cons.
+  assert (E : forall f, is_class f rs now i = f (classify rs now i)) by reflexivity. rewrite !E.
+  destruct (classify rs now i) as [| |[|]| | |];
+    cbn [c_nopod c_unresp c_ready c_up_notready c_oldavail c_oldunavail c_oldterm c_haspod c_uptodate]; lia.
+Qed.
+
+(** The budgets of the real plan are those of the abstract sync on the abstraction of the items: for planning
+    items without a stuck pod and a rollout that is neither paused nor frozen, the number of creations and of
+    update-deletions the plan allows are exactly [c] and [d] of [a_sync]. *)
+Theorem plan_projects : forall rs ann ru now items rp,
+  rolling_plan_of rs ann ru now items = Ok rp ->
+  rp_paused rp = false -> rp_frozen rp = false ->
+  count_if (is_class c_unresp rs now) items = 0 -> 0 <= rp_max_sched_failure rp ->
+  let s := abs_of rs now items in
+  let lp := a_limits s (rp_max_creation rp) (rp_max_unavailable rp) in
+  a_nodes s = zlen items /\
+  rp_nb_create rp = Z.min (calc_create lp) (a_missing s) /\
+  rp_nb_delete rp = Z.min (calc_delete lp) (a_old_notready s + a_old_ready s) /\
+  zlen (rp_create_candidates rp) = a_missing s /\
+  zlen (rp_del_unavailable rp) = a_old_notready s /\ zlen (rp_del_available rp) = a_old_ready s.
+Proof.
+  intros rs ann ru now items rp H Hp Hf Hu Hmf.
+  unfold rolling_plan_of in H.
+  destruct (ru_max_sched_failure ru) as [msf|]; [|discriminate].
+  destruct (resolve_iop msf (zlen items)) as [max_fail|]; [|discriminate].
+  destruct (ru_max_unavailable ru) as [mu|]; [|discriminate].
+  destruct (resolve_iop mu (zlen items)) as [max_unav|]; [|discriminate].
+  destruct (ru_increase ru) as [inc|]; [|discriminate].
+  destruct (resolve_iop inc (zlen items)); [|discriminate].
+  destruct (ru_interval ru) as [interval|]; [|discriminate].
+  destruct (ru_max_parallel ru) as [maxpar|]; [|discriminate].
+  destruct (max_creation inc interval maxpar (zlen items) _ now) as [maxc|]; [|discriminate].
+  injection H as <-. cbn [rp_paused rp_frozen rp_max_sched_failure rp_max_creation rp_max_unavailable
+                          rp_nb_create rp_nb_delete rp_create_candidates rp_del_unavailable rp_del_available] in *.
+  rewrite Hp, Hf. cbn [orb].
+  pose proof (class_partition rs now items) as Hpart. cbv beta zeta in Hpart. rewrite Hu in Hpart.
+  pose proof (haspod_split rs now items) as Hhp. cbv beta zeta in Hhp.
+  pose proof (uptodate_split rs now items) as Hup. cbv beta zeta in Hup.
+  assert (Hlen : forall f, zlen (map ni_name (filter (is_class f rs now) items)) = count_if (is_class f rs now) items).
+  { intros f. unfold zlen, count_if. rewrite map_length. reflexivity. }
+  rewrite !Hlen.
+  unfold abs_of. cbn [a_missing a_old_notready a_old_ready].
+  assert (Hn : a_nodes (abs_of rs now items) = zlen items).
+  { unfold a_nodes, abs_of. cbn. lia. }
+  split; [exact Hn|].
+  unfold count_items. cbn [k_pods k_available k_old_available k_created k_unresponsive k_old_unavailable].
+  unfold calc_create, calc_delete, a_limits.
+  cbn [lp_nodes lp_pods lp_available lp_old_available lp_created lp_unresponsive lp_old_unavailable
+       lp_max_creation lp_max_unavailable lp_max_unschedulable].
+  fold (abs_of rs now items). rewrite Hn. unfold abs_of.
+  cbn [a_up_ready a_up_notready a_old_ready a_old_notready a_terminating a_missing].
+  rewrite Hu, Hhp.
+  replace (Z.min 0 max_fail) with 0 by lia.
+  repeat split; try reflexivity; f_equal; f_equal; try lia; f_equal; lia.
 Qed.
